@@ -515,6 +515,20 @@ theorem C13_accepted_documents_wellformed_cdata_end (q : List QEv) (d : Nat) :
     (∀ raw : Bytes, hasCdataEnd raw = containsSub [93, 93, 62] raw) :=
   ⟨deEventsAt_text_clean q d, hasCdataEnd_eq⟩
 
+/-- **The processing instructions of an accepted document are well-formed** (XML 1.0 productions [16], [17]; the
+clause `pi-target` of well-formedness; FULL since the repair 66c0f09 of `Deserializer::read_event` — until then `<??>`,
+`<?1a?>` and `<?XML?>` were skipped like any processing instruction: finding `xml-illformed-accepted:pi-target`, now
+fixed). For every token sequence `q` of a document that is accepted: every processing instruction in it — wherever it
+stands: in the prolog, between elements, inside character data, behind the root — has a body `target rest` whose
+target is a Name by the *specification's* definition (`XmlSpec.isName`), is followed by nothing or by white space, and
+is not `xml` in any case (`PiBody`); and no token of `q` is one at which `read_event` fails (`QEv.stopsRun`: a reader
+error, a processing instruction with an illegal target). The XML declaration (`<?xml …?>`, a token of its own) is not a
+processing instruction: where it may stand is the clause `xmldecl`, still open. -/
+theorem C13_accepted_documents_wellformed_pi_target (X : Ext) (root : Bytes) (s : Sch) (q : List QEv) (v : Val)
+    (h : decodeDoc X (.named root) s (deEvents q) = .ok v) :
+    (∀ c, QEv.pi c ∈ q → PiBody c) ∧ q.any QEv.stopsRun = false :=
+  ⟨fun _ hc => decodeDoc_named_pi X h hc, decodeDoc_named_no_stop X h⟩
+
 /-! ## meaning -/
 
 /-- **An accepted document is given its XML meaning** (FULL since the repairs c575458 and d365e05 of
@@ -625,7 +639,7 @@ example : charsMeaning [.text [97, 13, 10, 98, 13], .comment, .text [10, 99, 38,
     = some [97, 10, 98, 10, 10, 99, 13, 10] := by decide
 
 /-- `<!-- -->a&lt;<![CDATA[b&]]><?pi?>c` denotes `a<b&c` -/
-example : charsMeaning [.comment, .text [97, 38, 108, 116, 59], .cdata [98, 38], .pi, .text [99]] = some [97, 60, 98, 38, 99] := by
+example : charsMeaning [.comment, .text [97, 38, 108, 116, 59], .cdata [98, 38], .pi [112, 105], .text [99]] = some [97, 60, 98, 38, 99] := by
   decide
 
 /-- the hypothesis of `C13_accepted_documents_wellformed_document_element` is inhabited: `\n<L>EU</L>\n` and `<L/>` are
@@ -667,5 +681,19 @@ example : (match decodeDoc { tsParse := fun _ _ => none } (.named t_Key) .str
     | .ok (.str b) => b == [97, 93, 93, 62, 98] | _ => false) = true := by decide
 example : Ev.text [97, 93, 93, 32, 62, 98] ∈
     deEvents (tokenize [60, 75, 101, 121, 62, 97, 93, 93, 32, 62, 98, 60, 47, 75, 101, 121, 62]) := by decide
+
+/-- the hypothesis of `C13_accepted_documents_wellformed_pi_target` is inhabited: `<Key><?p i?>k</Key>` is accepted and
+holds a processing instruction … -/
+example : tokenize [60, 75, 101, 121, 62, 60, 63, 112, 32, 105, 63, 62, 107, 60, 47, 75, 101, 121, 62]
+    = [.start t_Key [], .pi [112, 32, 105], .text [107], .stop t_Key] := by decide
+example : (match decodeDoc { tsParse := fun _ _ => none } (.named t_Key) .str
+      (deEvents (tokenize [60, 75, 101, 121, 62, 60, 63, 112, 32, 105, 63, 62, 107, 60, 47, 75, 101, 121, 62])) with
+    | .ok (.str b) => b == [107] | _ => false) = true := by decide
+
+/-- … `<??>`, `<?1a?>` and `<?XML?>` end the run with `InvalidContent`; `<?xml-stylesheet?>` passes -/
+example : deEvents [.start t_Key [], .pi [], .stop t_Key] = [.start t_Key [], .bad .invalidContent] := by decide
+example : deEvents [.start t_Key [], .pi [49, 97], .stop t_Key] = [.start t_Key [], .bad .invalidContent] := by decide
+example : deEvents [.start t_Key [], .pi [88, 77, 76], .stop t_Key] = [.start t_Key [], .bad .invalidContent] := by decide
+example : deEvents [.start t_Key [], .pi [120, 109, 108, 45, 115], .stop t_Key] = [.start t_Key [], .stop t_Key] := by decide
 
 end S3V.C13
